@@ -71,6 +71,23 @@ def check(case):
     ug = G.union_graph(want)
     lab = _labels(D, I, mec, want, ug)
     for var in case.get("variants", ["int"]):
+        if var == "libchain":
+            # the caller gets a chain from the library's own helper, asks for its MEC, overwrites what it got, edits the chain
+            # (adds the case's extra edge, if any) and only then asks for the I-MEC: all of that is the caller's own storage
+            p0 = len(D)
+            A = must(lib(utils.chain_graph, p0), "chain_graph(%d)" % p0)
+            first = must(lib(utils.mec, A), "mec(chain_graph(%d))" % p0)
+            spoil(np.asarray(first))
+            for (i, j) in case.get("extra_edges", []):
+                A[i, j] = 1
+            if G.rows_from_matrix(A) != D:
+                raise Violation("chain_graph_wrong", "utils.chain_graph(%d) (+ the caller's edits) is not the expected graph" % p0)
+            keep = A.copy()
+            res = must(lib(utils.imec, A, set(I)), "imec[libchain]")
+            got, n = result_set(res, p, "imec")
+            compare_sets(got, n, want, "imec[chain obtained from utils.chain_graph and edited by the caller]", "A=%s I=%s" % (case["A"], I))
+            lab.append("var_libchain")
+            continue
         if var == "weighted":
             A = signed_copy(D, case.get("salt", 0))
         elif var == "scaled":
@@ -190,21 +207,28 @@ def _run_chain(acc, job):
         for I in targets:
             variants = ["int", "float", "scaled", "weighted", "negated", "uint8", "bool"] + (["nochain"] if p <= job["p_nochain"] else [])
             case = {"sub": "chain", "A": G.lists_from_rows(chain), "I": I, "variants": variants, "salt": p + len(I)}
-            try:
-                lab = check(case)
-                acc.record(case, lab + ["chain_p%d" % p], p >= 3 and 0 < len(I) < p, by_construction=True,
-                           sample=(p in (5, 9) and len(I) == 1 and I[0] == 2))
-            except Violation as v:
-                acc.record(case, [], False)
-                acc.violation(case, v)
+            cases = [case, dict(case, variants=["libchain", "int"])]
+            if 3 <= p <= 7:
+                # the library's chain with one extra edge 0 -> 2 added by the caller (no longer a chain graph)
+                D2 = list(chain)
+                D2[0] |= 1 << 2
+                cases.append({"sub": "chain", "A": G.lists_from_rows(tuple(D2)), "I": I, "variants": ["libchain", "float"], "extra_edges": [[0, 2]], "salt": p})
+            for c in cases:
+                try:
+                    lab = check(c)
+                    acc.record(c, lab + ["chain_p%d" % p], p >= 3 and 0 < len(I) < p, by_construction=True,
+                               sample=(p in (5, 9) and len(I) == 1 and I[0] == 2 and c is case))
+                except Violation as v:
+                    acc.record(c, [], False)
+                    acc.violation(c, v)
     acc.exhaustive = True
 
 
 @st.composite
 def _hyp_case(draw):
     A = draw(S.dag_pattern(6, 9, shapes=("random", "collider", "collider", "dense", "chain", "sparse")))
-    if draw(st.integers(0, 2)) == 0:
-        A = draw(S.embedded(draw(S.dag_pattern(3, 6, shapes=("random", "dense", "collider", "complete")))))
+    if draw(st.booleans()):
+        A = draw(S.embedded(draw(S.dag_pattern(3, 6, shapes=("random", "dense", "collider", "collider", "complete")))))
     p = len(A)
     edges = [(i, j) for i in range(p) for j in range(p) if A[i][j]]
     if len(edges) > 11:
@@ -228,7 +252,7 @@ def plan(tier, seed):
     if tier == "thorough":
         for k in range(192):
             jobs.append({"sub": "pairs_exh", "p": 5, "shard": k, "nshards": 192, "seed": seed, "cost": 80})
-    n = scaled(480 if tier == "quick" else 12000)
+    n = scaled(2400 if tier == "quick" else 30000)
     shards = 16 if tier == "quick" else 32
     for k in range(shards):
         jobs.append({"sub": "pairs_hyp", "seed": seed, "shard": k, "n": max(1, n // shards), "cost": 10})
